@@ -42,8 +42,16 @@ Inductive gexpr :=
 | ELit (ty : string) (fields : list (string * gexpr))   (* composite literal; positional fields get their declared names *)
 | EAddr (x : string)                     (* &x: an out-parameter of an external call *)
 | EBytesLit (zs : list Z)                (* a constant byte string given by its byte values *)
+| EMapGet (m k : gexpr)                  (* m[k] on a map: zero value (nil) when absent *)
 | EPkg (name : string)                   (* a package-level object of another package (binary.BigEndian): opaque *)
 | EUnsup (what : string).
+
+(* assignable places: x, l.f, l[i] (slice/array element), l[k] (map entry) *)
+Inductive glval :=
+| LVar (x : string)
+| LField (l : glval) (f : string)
+| LIndex (l : glval) (i : gexpr)
+| LMapIndex (l : glval) (k : gexpr).
 
 Inductive gstmt :=
 | SReturn (es : list gexpr)
@@ -59,6 +67,11 @@ Inductive gstmt :=
 | SIdxOp (x : string) (i : gexpr) (op : option gop) (e : gexpr)  (* x[i] = e, x[i] op= e on a byte array *)
 | SSliceCall (fn : string) (x : string) (lo hi : option gexpr) (args : list gexpr)
                                                           (* fn(x[lo:hi], args): the callee fills the window of x *)
+| SAssignL (lhs : list glval) (rhs : list gexpr)      (* assignment with struct-field / element / map-entry targets (GoLang2 only) *)
+| SOpAssignL (l : glval) (op : gop) (ty : string) (e : gexpr)
+| SMapLookup (v ok : string) (m k : gexpr)             (* v, ok := m[k] *)
+| SBreak
+| SContinue
 | SUnsup (what : string).
 
 (* named results carry their Go type: they start at its zero value *)
@@ -113,7 +126,12 @@ Fixpoint val_eqb (fuel : nat) (a b : gval) : option bool :=
     | VNil, VNil => Some true
     | VNil, VErr _ _ => Some false
     | VErr _ _, VNil => Some false
-    | VNil, VBytes y => Some (match y with [] => true | _ => false end)   (* nil slice compared with nil only; see below *)
+    | VNil, VBytes y => Some (match y with [] => true | _ => false end)   (* a byte slice is nil iff empty here *)
+    | VBytes y, VNil => Some (match y with [] => true | _ => false end)
+    | VNil, VList y => Some (match y with [] => true | _ => false end)
+    | VList y, VNil => Some (match y with [] => true | _ => false end)
+    | VNil, VStruct _ => Some false                                        (* a key/struct object is not nil *)
+    | VStruct _, VNil => Some false
     | VErr n1 a1, VErr n2 a2 =>
       if String.eqb n1 n2 then
         (fix go (l1 l2 : list gval) : option bool :=
@@ -171,7 +189,7 @@ Definition zero_of (ty : string) : gval :=
 
 (* calls evaluated by the semantics itself *)
 Definition is_builtin (fn : string) : bool :=
-  String.eqb fn "make" || String.eqb fn "append" || String.eqb fn "append...".
+  String.eqb fn "make" || String.eqb fn "makemap" || String.eqb fn "append" || String.eqb fn "append...".
 
 Section Eval.
 Variable ext : externs.
@@ -261,6 +279,7 @@ Fixpoint eval (fuel : nat) (e : env) (x : gexpr) : option gval :=
           | [VNil; VBytes y'] => Some (VBytes y')
           | _ => None
           end
+        else if String.eqb fn "makemap" then Some (VList [])
         else if String.eqb fn "make" then
           match vs with
           | [VInt n] => if Z.ltb n 0 then None else Some (VBytes (repeat x00 (Z.to_nat n)))
@@ -268,6 +287,15 @@ Fixpoint eval (fuel : nat) (e : env) (x : gexpr) : option gval :=
           end
         else if String.eqb fn "append" then
           match vs with
+          | VList x' :: more => Some (VList (x' ++ more)%list)
+          | VNil :: ((VBytes _ | VStruct _ | VList _) :: _) as more => Some (VList more)
+          | VNil :: more =>
+            (fix app (acc : list byte) (l : list gval) : option gval :=
+               match l with
+               | [] => Some (VBytes acc)
+               | VInt z :: t => if (Z.leb 0 z && Z.ltb z 256)%bool then app (acc ++ [match Byte.of_N (Z.to_N z) with Some c => c | None => x00 end])%list t else None
+               | _ => None
+               end) [] more
           | VBytes x' :: more =>
             (fix app (acc : list byte) (l : list gval) : option gval :=
                match l with
@@ -315,6 +343,17 @@ Fixpoint eval (fuel : nat) (e : env) (x : gexpr) : option gval :=
       end
     | EAddr v => match lookup v e with Some r => Some r | None => Some VNil end
     | EBytesLit zs => Some (VBytes (map (fun z => match Byte.of_N (Z.to_N z) with Some c => c | None => x00 end) zs))
+    | EMapGet m k =>
+      match eval f e m, eval f e k with
+      | Some (VList l), Some kv =>
+        (fix find (l0 : list gval) : option gval :=
+           match l0 with
+           | [] => Some VNil
+           | VList [k0; v0] :: t => match val_eqb 8 k0 kv with Some true => Some v0 | Some false => find t | None => None end
+           | _ => None
+           end) l
+      | _, _ => None
+      end
     | EPkg _ => Some VNil
     | EUnsup _ => None
     end
@@ -541,6 +580,7 @@ Fixpoint exec (fuel : nat) (e : env) (ss : list gstmt) {struct fuel} : sres :=
           end
         | _ => stuck "slice call target"
         end
+      | SAssignL _ _ | SOpAssignL _ _ _ _ | SMapLookup _ _ _ _ | SBreak | SContinue => stuck "statement of the extended subset (GoLang2)"
       | SUnsup w => stuck w
       end
     end
